@@ -28,7 +28,8 @@ pub fn install_panic_hook() {
                 .location()
                 .map(|l| {
                     let f = l.file();
-                    let f = f.strip_prefix("/repo/").unwrap_or(f);
+                    // path relative to the repository root, wherever the checkout lives
+                    let f = f.find("prqlc/prqlc").map(|i| &f[i..]).unwrap_or(f);
                     format!("{}:{}", f, l.line())
                 })
                 .unwrap_or_else(|| "?".into());
